@@ -216,3 +216,22 @@ Definition spec_verdict (sch : schema) (doc : document) (U : usercode) (cfg : co
       | _ => 0
       end
   end%Z.
+
+(* ---------- subscriptions (C14) ---------- *)
+From TV Require Import Model.Subscribe.
+
+Inductive sobs :=
+| SObsRefused (r : response)
+| SObsStream (args : list (string * pyval)) (n : Z)
+| SObsRaised.
+
+Definition sub_agree (sch : schema) (doc : document) (cfg : config) (sources : list string)
+           (opn : option string) (raw : vars) (events : list pyval) (obs : sobs) : bool :=
+  let U0 := table_usercode [] [] [] [] [] in
+  match impl_subscribe sch doc U0 cfg (fun _ _ => events) (fun f => mem_str f sources) opn raw, obs with
+  | SubRefused r, SObsRefused r' =>
+      pyval_eqb (r_data r) (r_data r') && perm_eqb gerr_eqb (r_errors r) (r_errors r')
+  | SubStream args rs, SObsStream args' n => kv_eqb args args' && (Z.of_nat (List.length rs) =? n)%Z
+  | SubRaised, SObsRaised => true
+  | _, _ => false
+  end.
